@@ -270,3 +270,17 @@ Proof.
   - intros [s' [p' H]]. eapply flat_eol_sound; eassumption.
   - intros [pre [H E]]. eapply flat_eol_complete; eassumption.
 Qed.
+
+(* re.match on a flat pattern followed by \Z (end of string): the matcher run with the
+   continuation "the rest is empty" *)
+Theorem flat_eos_match r cl s : flat r = Some cl ->
+  (m (N * groups) r s 0 [] (fun s' p' g' => match s' with [] => Some (p', g') | _ => None end) <> None <-> fits cl s).
+Proof.
+  intros F. split.
+  - intros H. destruct (m _ r s 0 [] _) as [x|] eqn:E; [|congruence].
+    apply m_sound in E. destruct E as [s' [p' [g' [Hm Hk]]]].
+    destruct s' as [|c t]; [|discriminate].
+    destruct (flat_sound r cl s 0 [] p' F Hm) as [pre [-> Hf]]. rewrite app_nil_r. exact Hf.
+  - intros Hf. pose proof (flat_complete r cl s [] 0 F Hf) as Hm. rewrite app_nil_r in Hm.
+    apply (m_complete _ r s 0 [] _ Hm). intros g'. discriminate.
+Qed.
